@@ -57,6 +57,18 @@ func c13Run(line string) string {
 			return "err"
 		}
 		return c13Show(&u)
+	case "scale":
+		u, err := NewUint128(vhUnhex(f[1]))
+		if err != nil {
+			return "err"
+		}
+		enc, err := Marshal(u)
+		if err != nil {
+			return "err"
+		}
+		var back *Uint128
+		rt := Unmarshal(enc, &back) == nil && back != nil && *back == *u
+		return fmt.Sprintf("%s rt=%v", vhHex(enc), rt)
 	case "cmp":
 		a, _ := NewUint128(vhUnhex(f[1]))
 		b, _ := NewUint128(vhUnhex(f[2]))
@@ -95,7 +107,9 @@ func c13Val(r *vhRng) []byte {
 }
 
 func c13Gen(r *vhRng) string {
-	switch r.Intn(10) {
+	switch r.Intn(12) {
+	case 10, 11:
+		return "scale " + vhHex(c13Val(r))
 	case 0, 1, 2:
 		return "le " + vhHex(c13Val(r))
 	case 3, 4:
